@@ -13,6 +13,8 @@ WORKLOADS = {
     'C05': dict(quick=[('reclaim', 12, 60, 4000), ('reclaim', 6, 40, 9000)],
                 thorough=[('reclaim', 250, 200, 4000), ('reclaim', 60, 120, 9000), ('names', 100, 200, 2200)]),
     'C06': dict(quick=[('lockorder', 16, 80, 4000), ('names', 6, 60, 4000)], thorough=[('lockorder', 400, 300, 4000), ('names', 100, 300, 4000), ('stale', 100, 300, 4000)]),
+    'C13': dict(quick=[('paging', 3, 1, 4000)], thorough=[('paging', 24, 1, 4000)]),
+    'C19': dict(quick=[('limits', 1, 1, 30000), ('limits', 1, 1, 70000)], thorough=[('limits', 3, 1, 30000), ('limits', 2, 1, 70000), ('limits', 1, 1, 140000)]),
     'C08': dict(quick=[('stale', 16, 70, 4000)], thorough=[('stale', 300, 300, 4000), ('names', 100, 300, 4000)]),
     'C09': dict(quick=[('fail', 10, 60, 1600), ('fail', 8, 60, 1570), ('fail', 6, 50, 2100)],
                 thorough=[('fail', 150, 200, 1600), ('fail', 100, 200, 1570), ('fail', 100, 200, 2100), ('fail', 60, 200, 1545)]),
